@@ -675,6 +675,7 @@ pub fn run_once(
             let rt = tokio::runtime::Builder::new_current_thread()
                 .enable_all()
                 .start_paused(true)
+                .rng_seed(tokio::runtime::RngSeed::from_bytes(b"csverif-execution"))
                 .max_blocking_threads(1)
                 .on_thread_start(move || env::install(&env2))
                 .on_thread_stop(env::uninstall)
@@ -986,4 +987,19 @@ pub fn explore_many_until(jobs: Vec<ScenarioFactory>, cfg_of: &(dyn Fn(usize) ->
         }
     });
     out.into_inner().unwrap().into_iter().map(|o| o.expect("explored")).collect()
+}
+
+/// Debug facility: `VERIF_ONLY=<substring>` restricts a check to the scenarios whose name contains the substring
+/// (the run is then partial and says so).
+pub fn scenario_selected(name: &str) -> bool {
+    match std::env::var("VERIF_ONLY") {
+        Ok(f) if !f.is_empty() => {
+            let sel = name.contains(&f);
+            if sel {
+                eprintln!("note: VERIF_ONLY={f}: partial run");
+            }
+            sel
+        }
+        _ => true,
+    }
 }
